@@ -216,8 +216,16 @@ where
             datetime.format("%a %b %d").to_string()
         }
         brush_parser::prompt::PromptDateFormat::Custom(fmt) => {
+            use std::fmt::Write as _;
+
+            // N.B. Displaying the formatter fails on an invalid format string, so we
+            // can't use to_string() (which would panic); fall back to the raw format.
             let fmt_items = chrono::format::StrftimeItems::new(fmt);
-            datetime.format_with_items(fmt_items).to_string()
+            let mut formatted = String::new();
+            if write!(formatted, "{}", datetime.format_with_items(fmt_items)).is_err() {
+                formatted.clone_from(fmt);
+            }
+            formatted
         }
     }
 }
